@@ -12,6 +12,15 @@ let jresp j : merkle_resp =
 let of_outcome = function
   | RetTx -> JStr "tx" | RetNone -> JStr "none" | RaiseKeyError -> JStr "KeyError" | RaiseHexError -> JStr "binascii.Error"
 
+(* legacy claim-trie proof (correspondence only) *)
+let jtext_opt j k = match jfield_opt j k with None -> None | Some h -> Some (jtext h)
+let jz_opt j k = match jfield_opt j k with None -> None | Some h -> Some (jz h)
+let jchild j : child = { c_char = jz (jfield j "character"); c_node_hash = jtext_opt j "nodeHash" }
+let jnode j : node = { n_children = SL.map jchild (jlist (jfield j "children")); n_value_hash = jtext_opt j "valueHash" }
+let jproof j : claim_proof =
+  { p_nodes = SL.map jnode (jlist (jfield j "nodes")); p_txhash = jtext_opt j "txhash"; p_nout = jz_opt j "nOut";
+    p_takeover = jz_opt j "last takeover height" }
+
 let () = serve (fun fn req ->
   match fn with
   | "hexlify" -> JStr (string_of_bytes (hexlify (jbytes (jfield req "b"))))
@@ -46,4 +55,7 @@ let () = serve (fun fn req ->
           (jz (jfield req "height")) arg net in
       JObj [ "height", of_z st1.t_height; "position", of_z st1.t_position; "verified", of_bool st1.t_verified;
              "outcome", of_outcome out; "fetched", of_bool fetched ]
+  | "claim_verify" ->
+      (match verify_proof (hash_of req) (jproof (jfield req "proof")) (jtext (jfield req "root")) (jbytes (jfield req "name")) with
+       | CpTrue -> JBool true | CpInvalid -> JStr "invalid" | CpOther -> JStr "other")
   | _ -> raise (Model_error ("unknown fn " ^ fn)))
